@@ -13,8 +13,10 @@ from vlib import wbsys
 
 PROPERTY_ID = "C02"
 RULE = ("random Hermitian real-space models (1-4 WFs, <=13 R-vectors |R_i|<=3, centres inside/outside/coinciding, "
-        "11 lattice families), FFT grids [1..4]^3 including grids smaller than the R range, dK in [0,1)^3 or 0, "
-        "derivative order 0..3, libs fftw/numpy/slow/k_list; non-trivial = two R-vectors collide modulo the FFT grid, "
+        "11 lattice families), FFT grids [1..4]^3 including grids smaller than the R range, dK in [0,1)^3, in (-1,1)^3, "
+        "simple fractions of either sign (sums that cancel) or 0, derivative order 0..3, libs fftw/numpy/slow/k_list, "
+        "hermitian=True/False, grid-shaped output, an earlier result held across later calls, a second shift on the same "
+        "object; non-trivial = two R-vectors collide modulo the FFT grid, "
         "or der>=2, or dK != 0")
 ASSUMPTIONS = ["reference = explicit O(N_k N_R) Fourier sum in numpy", "tolerance 1e-9 relative (DESIGN 2.3)"]
 MIN_NONTRIVIAL = {"quick": 30, "thorough": 300}
@@ -23,7 +25,12 @@ TOL = 1e-9
 case_st = st.fixed_dictionaries(dict(
     model=wbsys.model_params_st(max_wann=4, max_npairs=6, rmax=3, keys=("Ham", "AA")),
     NKFFT=st.lists(st.integers(1, 4), min_size=3, max_size=3),
-    dK=st.one_of(st.just([0.0, 0.0, 0.0]), st.lists(fl(0, 0.999), min_size=3, max_size=3)),
+    # grid shifts as run() produces them (K/NKFFT of grid, symmetry-mapped and refined K-points: components of either
+    # sign, often simple fractions, sums that cancel exactly) or generic
+    dK=st.one_of(st.just([0.0, 0.0, 0.0]), st.lists(fl(0, 0.999), min_size=3, max_size=3),
+                 st.lists(fl(-0.999, 0.999), min_size=3, max_size=3),
+                 st.lists(st.sampled_from([0.0, 0.0625, -0.0625, 0.25, -0.25, 0.125, -0.125, 0.5, -0.5, 1 / 3, -1 / 3]),
+                          min_size=3, max_size=3)),
     der=st.integers(0, 3),
 ))
 
@@ -49,8 +56,13 @@ def check(case):
             dk = Data_K_R(s, grid=grid, k_list=kpts.copy())
         else:
             dk = Data_K_R(s, grid=grid, dK=dK.copy(), fftlib=lib)
-        if reldiff(dk.kpoints_all % 1, kpts % 1) > 1e-12 and lib != "klist":
+        if lib != "klist" and np.max(np.abs((np.asarray(dk.kpoints_all) - kpts + 0.5) % 1 - 0.5)) > 1e-12:
             raise Violation("kpoints_all", f"{lib}: k-points of the FFT grid differ from points_FFT+dK")
+        # a result obtained first and kept by the caller while further transforms are requested from the same object
+        held = dk.rvec.R_to_k(np.array(dk.get_R_mat("Ham"), copy=True), der=0, hermitian=False)
+        held_copy = np.array(held, copy=True)
+        if reldiff(held, refH) > TOL:
+            raise Violation(f"{lib}-vs-explicit-sum", f"Ham der=0 hermitian=False: rel diff {reldiff(held, refH):.2e}")
         for key in ("Ham", "AA"):
             XR = np.array(dk.get_R_mat(key), copy=True)
             got = dk.rvec.R_to_k(XR, der=der, hermitian=True)
@@ -79,6 +91,21 @@ def check(case):
                 raise Violation(f"{lib}-Xbar", f"Xbar('Ham',{der}) un-rotated differs from explicit sum by {d:.2e}")
             if reldiff(Xb, np.conj(np.swapaxes(Xb, 1, 2))) > TOL:
                 raise Violation("hermiticity", f"{lib} Xbar('Ham',{der}) not Hermitian")
+        got_nh = dk.rvec.R_to_k(np.array(dk.get_R_mat("Ham"), copy=True), der=der, hermitian=False)
+        if reldiff(got_nh, ref["Ham"]) > TOL:
+            raise Violation(f"{lib}-vs-explicit-sum", f"Ham der={der} hermitian=False: rel diff {reldiff(got_nh, ref['Ham']):.2e}")
+        if not np.array_equal(held, held_copy):
+            raise Violation(f"{lib}-result-overwritten",
+                            f"the der=0 result returned first was changed by later transforms of the same object (der={der}): "
+                            f"max change {np.max(np.abs(held - held_copy)):.3e}")
+        if lib != "klist":
+            # documented option of the transform object: result kept in the shape of the FFT grid
+            for herm in (True, False):
+                g = dk.rvec.fft_R_to_k(np.array(dk.get_R_mat("Ham"), copy=True), hermitian=herm, reshapeKline=False)
+                want = refH.reshape(tuple(int(x) for x in NKFFT) + refH.shape[1:])
+                if g.shape != want.shape or reldiff(g, want) > TOL:
+                    raise Violation(f"{lib}-grid-shaped", f"reshapeKline=False hermitian={herm}: shape {g.shape} vs {want.shape}"
+                                    + (f", rel diff {reldiff(g, want):.2e}" if g.shape == want.shape else ""))
         # the same R-vector object re-used for a second grid shift (sequence of API calls on one object)
         if lib != "klist":
             dK2 = (dK + np.array(case.get("dK2", [0.31, 0.17, 0.43]))) % 1
